@@ -1,6 +1,7 @@
 mod ctx;
 mod driver;
 mod props;
+mod session;
 mod sut;
 
 use ctx::{Ctx, Outcome, Tier};
@@ -102,6 +103,31 @@ fn main() {
                     println!("REPLAY-PASS property={}", id);
                 }
             }
+        }
+        "bench" => {
+            let t = std::time::Instant::now();
+            for _ in 0..200 {
+                let _ = marwood::vm::Vm::new();
+            }
+            println!("Vm::new: {:?} each", t.elapsed() / 200);
+            let t = std::time::Instant::now();
+            for _ in 0..200 {
+                let mut vm = marwood::vm::Vm::new();
+                session::pollute(&mut vm);
+            }
+            println!("Vm::new + pollute: {:?} each", t.elapsed() / 200);
+        }
+        "pg" => {
+            // debug aid: print the program a byte sequence decodes to
+            let text = std::fs::read_to_string(&args[2]).expect("cannot read file");
+            let rec: Value = serde_json::from_str(&text).expect("not JSON");
+            let bytes = mwv_core::choice::unhex(rec["payload"]["bytes"].as_str().unwrap_or(""));
+            let cfg = mwv_core::pg::Cfg { callcc: args.iter().any(|a| a == "--callcc"), ..Default::default() };
+            let s = mwv_core::pg::gen_session(&bytes, &cfg);
+            for f in &s.forms {
+                println!("{}", f);
+            }
+            eprintln!("features: {:?}", s.features);
         }
         _ => usage(),
     }
